@@ -51,8 +51,26 @@ def _payload(rng):
                         "children": [{"name": "g%d" % len(ops),
                                       "ops": [{"op": "sleep", "d": rng.choice(DELAYS)}]}],
                         "body": [{"op": "postpone", "k": 1}]})
-        else:
+        elif r < 0.94:
             ops.append({"op": "now"})
+        else:
+            # further places to be suspended in when a cancellation arrives: a ticker, a
+            # connective, an iteration, another task, a borrow block, collect(), an until-block
+            n = len(ops)
+            ops.append(rng.choice([
+                {"op": "ticker", "kind": rng.choice(["interval", "delay"]), "p": 0.5,
+                 "bodies": [0, 0.25, 0]},
+                {"op": "wait", "id": "tw%d" % n, "x": {"k": "and", "xs": [
+                    {"k": "flag", "n": "A"}, {"k": "flag", "n": "G"}]}},
+                {"op": "iter", "on": "Q", "n": 1},
+                {"op": "await_task", "task": "partner"},
+                {"op": "borrow", "on": "R", "id": "tb%d" % n, "mode": "borrow",
+                 "amounts": {"a": 1}, "body": [{"op": "sleep", "d": 0.5}]},
+                {"op": "collect", "id": "tc%d" % n, "acts": [
+                    {"name": "ca%d" % n, "ops": [{"op": "sleep", "d": 0.5}], "ret": 1},
+                    {"name": "cb%d" % n, "ops": [{"op": "sleep", "d": 1}], "ret": 2}]},
+                {"op": "scope", "label": "iu%d" % n, "children": [],
+                 "until": {"k": "delay", "d": 1}, "body": [{"op": "sleep", "d": 2}]}]))
     if rng.random() < 0.12:
         ops.append({"op": "raise", "type": rng.choice(["E", "A", "K", "Z"])})
     if rng.random() < 0.3 and ops:
@@ -84,7 +102,7 @@ def generate(rng, tier):
         {"op": "lock", "on": "L", "body": [{"op": "sleep", "d": rng.choice(DELAYS)}]},
         {"op": "put", "on": "Q", "v": 1}, {"op": "sleep", "d": 1},
         {"op": "put", "on": "Q", "v": 2}, {"op": "put", "on": "Q", "v": 3},
-        {"op": "put", "on": "Q", "v": 4}]})
+        {"op": "put", "on": "Q", "v": 4}, {"op": "flag_set", "on": "A", "to": True}]})
     rng.shuffle(siblings)
     watched = [spec["name"] for spec in siblings if spec["name"].startswith("s")]
     if watched and rng.random() < 0.15:
@@ -101,7 +119,9 @@ def generate(rng, tier):
     if rng.random() < 0.3:
         host_body.append({"op": "await_task", "task": "t"})
     inner = {"op": "scope", "label": "inner", "children": siblings, "body": host_body}
-    resources = {"L": {"kind": "lock"}, "Q": {"kind": "queue"}}
+    resources = {"L": {"kind": "lock"}, "Q": {"kind": "queue"}, "A": {"kind": "flag"},
+                 "G": {"kind": "flag", "init": True},
+                 "R": {"kind": "capacities", "levels": {"a": 2}}}
     r = rng.random()
     if r < 0.1:
         # the scope of the task is torn down in the very turn in which its children were
@@ -239,8 +259,12 @@ def check(rec, twin=None):
     observed = [ev for ev in t_events if ev[4] in ("exc", "cleanup+") and ev[5]
                 and ev[5][0] == "CancelTask"]
     seen_tokens = {}
-    for ev in observed:
-        seen_tokens.setdefault(tuple(ev[5][2]), ev[2])      # first time each token surfaced
+    for ev in t_events:
+        # (any record of a cancellation reaching code of t: exc, cleanup+, <block>.body!, ...)
+        for field in ev[5:]:
+            if isinstance(field, tuple) and len(field) > 2 and field[0] == "CancelTask" \
+                    and field[1] == "task:t":
+                seen_tokens.setdefault(tuple(field[2]), ev[2])   # first time each token surfaced
     t_end = next((ev for ev in t_events if ev[4] == "end"), None)
     final = rec.final_status.get("t")
     # what do awaiters see
